@@ -227,8 +227,14 @@ def check_mesh(ctx, p, v, e, c, ne, replace_short, label):
 
 @st.composite
 def params(draw, tier):
-    p = draw(gen.tissue_params(kinds=("voronoi", "moebius"), lattices=("hex", "square"), max_cells=25, min_cells=3,
-                               allow_sub=True, n_int_max=40, pose=True, labels=True))
+    p = draw(gen.tissue_params(kinds=("voronoi", "moebius"), lattices=("hex", "square", "triborder"), max_cells=25,
+                               min_cells=3, allow_sub=True, n_int_max=40, pose=True, labels=True))
+    if p["kind"] == "triborder":
+        # polygonal triangular border cell: its free side is a two-point interface whose contraction leaves two vertices
+        p["sub"] = None
+        p["seed"] = draw(st.integers(0, 2 ** 32 - 1))
+        if draw(st.booleans()):
+            p["n_int"] = {"mode": "const", "k": 0}
     # short + long mix
     if draw(st.booleans()):
         p["n_int"] = {"mode": "per", "lo": 0 if p["kind"] != "moebius" else 1, "hi": draw(st.integers(1, 40)),
